@@ -1,4 +1,5 @@
 import RbV.Ref.Smem
+import RbV.Model.FMDExt
 /-!
 # C06 — FMD-index: SMEMs on both strands, `all_smems`, bi-interval extension
 
@@ -122,5 +123,48 @@ example : checkBi T0 sa0 [67, 67] ⟨5, 5, 2, 2⟩ = true := by decide
 example : checkBi T0 sa0 [67, 67] ⟨5, 6, 2, 3⟩ = false := by decide
 example : SmemsProp T0 sa0 [65, 84, 84] 2 1 [⟨0, 3, 4, 5, 2, 3⟩] := (checkSmems_iff ..).mp (by decide)
 end examples
+
+/-! ## [C, partial] mirror model of `backward_ext` / `forward_ext` / `init_interval_with`
+
+`FMDModel.backwardExt less occ iv a` (`RbV/Model/FMDExt.lean`) follows the Rust loop over `$TGCNAtgcna` line by
+line.  Proved: its **forward** interval and its size are the LF step of C05 (so they are exactly the rows of `a·P`
+on every `LF.Sorted` array).  Not proved (full statement): the reverse-strand lower bound, i.e.
+
+    IvOf t sa (revcomp P) iv.lowerRev (iv.lowerRev + iv.size) →
+    IvOf t sa (revcomp (a :: P)) (backwardExt … iv a).lowerRev ((backwardExt … iv a).lowerRev + (backwardExt … iv a).size)
+
+for `t = fmdText seqs`; it needs (i) strand symmetry of occurrence counts in `fmdText` and (ii) "rows starting with
+`Q` are ordered by the symbol after `Q`", neither of which is available yet.  The driver runs the model next to
+the implementation on every extension chain (tag `model=impl` / `drift`). -/
+
+/-- the order string of the loop is the byte order of the complements: `$ < A < C < G < N < T < a < c < g < n < t`
+read through `dnaCompl` -/
+theorem order_is_complement_order :
+    FMDModel.order.map dnaCompl = [36, 65, 67, 71, 78, 84, 97, 99, 103, 110, 116] ∧
+    (FMDModel.order.map dnaCompl).Pairwise (· < ·) := by decide
+
+/-- forward half of `backward_ext` on a sorted array: if `[lower, lower+size)` are exactly the rows whose suffix
+starts with `P` (non-empty interval), then after `backward_ext(·, a)` they are exactly the rows whose suffix starts
+with `a·P`; in particular the new size is the number of such rows -/
+theorem backward_ext_forward_partial (t sa : List Nat) (a : Nat) (P : List Nat) (iv : FMDModel.Bi)
+    (ha : a ∈ FMDModel.order) (hs : LF.Sorted t sa a)
+    (hiv : BSModel.IvOf t sa P iv.lower (iv.lower + iv.size)) (hne : 0 < iv.size) :
+    BSModel.IvOf t sa (a :: P)
+      (FMDModel.backwardExt (LF.lessRef (LF.bwtOf t sa)) (LF.occRef (LF.bwtOf t sa)) iv a).lower
+      ((FMDModel.backwardExt (LF.lessRef (LF.bwtOf t sa)) (LF.occRef (LF.bwtOf t sa)) iv a).lower +
+        (FMDModel.backwardExt (LF.lessRef (LF.bwtOf t sa)) (LF.occRef (LF.bwtOf t sa)) iv a).size) :=
+  FMDModel.backwardExt_forward t sa _ _ a P iv ha (LF.lfStep_of_sorted hs) hiv hne
+
+section model_examples
+-- T = ATTC$GAAT$, the doc test: backward_ext / forward_ext of the empty interval by `T` = init_interval_with(T)
+private def bw0 : List Nat := LF.bwtOf T0 sa0
+example : FMDModel.backwardExt (LF.lessRef bw0) (LF.occRef bw0) (FMDModel.initInterval 10) 84
+    = { FMDModel.initIntervalWith (LF.lessRef bw0) 84 with matchSize := 1 } := by decide
+example : FMDModel.forwardExt (LF.lessRef bw0) (LF.occRef bw0) (FMDModel.initInterval 10) 84
+    = FMDModel.initIntervalWith (LF.lessRef bw0) 84 := by decide
+-- A then T forwards: the bi-interval of "AT" accepted by the oracle above (rows 3..5 on both strands)
+example : FMDModel.fwd (FMDModel.forwardExt (LF.lessRef bw0) (LF.occRef bw0) (FMDModel.initIntervalWith (LF.lessRef bw0) 65) 84)
+    = (3, 5) := by decide
+end model_examples
 
 end RbV.Thm.C06
